@@ -138,7 +138,18 @@ impl Manifest {
         let mut begin = false;
 
         for value in stream {
-            let value = value?;
+            let value = match value {
+                Ok(value) => value,
+                // A crash in the middle of `append` leaves an incomplete record at the end of
+                // the file. Such a tail belongs to a transaction without `End`, which has to be
+                // ignored anyway, so stop here instead of refusing to open the database. The
+                // manifest is rewritten (compacted) right after replay, which drops the tail.
+                Err(e) if e.is_eof() => {
+                    warn!("manifest: find incomplete entry at the end, ignored");
+                    break;
+                }
+                Err(e) => return Err(e.into()),
+            };
             match value {
                 ManifestOperation::Begin => begin = true,
                 ManifestOperation::End => {
